@@ -294,6 +294,29 @@ def body(prop, args, seed, t0):
             return 2
         print(f"  note: a translator self-check could not run ({type(e).__name__}: {str(e)[:160]}); {len(broken)} obligation(s) are broken, going on")
 
+    # --- T11: definitions rendered by harness/translate_t11.py (raising externals, conditionally assigned variables, closures:
+    # estimation C15, `time_evolution_for_term` C16, `U3GateToRotation.production` C18) are instantiated with stand-ins on both sides and
+    # compared with the Python functions they came from (harness/translated_check_t11.py); a disagreement is a fault of the translator
+    if prop in _tables._specs() and driver.available():
+        from harness import translated_check_t11 as _t11
+        if any(p == prop for p, _s in _t11.t11_specs()) and (build_ok or common.lake_build(["oqdriver"])[0]):
+            try:
+                n11, bad11, untr11, dropped11 = _t11.run(seed, only=prop)
+            except Exception as e:  # noqa: BLE001
+                if not broken:
+                    raise
+                n11, bad11, untr11, dropped11 = 0, [], [f"self-check crashed: {type(e).__name__}: {str(e)[:120]}"], 0
+            tie["translated_t11_vs_python_function"] = n11
+            tie["translated_t11_not_compared"] = dropped11
+            tie["untranslatable_now"] = list(tie.get("untranslatable_now", [])) + untr11
+            tie["translated_functions"] = list(tie.get("translated_functions", []))
+            if bad11:
+                for b in bad11[:10]:
+                    print("  translator disagreement (T11, opaque objects with raising externals):", b)
+                print(f"INTERNAL-ERROR property={prop} (the Python->Lean translation misrenders the code; no verdict)")
+                return 2
+    # --- T11 end
+
     # --- T4: translated dictionary-valued definitions (abstract numeric values, exceptions with their class) are run at Rat through
     # the generated glue OQ/Generated/TranslatedDriverT4.lean and compared with the Python functions / the real methods on real objects
     # (harness/translated_check_t4.py); a disagreement is a fault of the translator, never a verdict about /repo
